@@ -45,13 +45,20 @@ theorem AllQ.mono {P : Nat → Reasm.Q → Prop} (hP : GPres P) {b b' : Nat} {s 
 
 theorem mem_setQ {l : List Stream} {si : BitVec 16} {f : Reasm.Q → Reasm.Q} {x' : Stream} (h : x' ∈ setQ l si f) :
     ∃ x ∈ l, x' = x ∨ x' = { x with q := f x.q } := by
-  rw [setQ, List.mem_map] at h
-  obtain ⟨x, hx, hxe⟩ := h
-  refine ⟨x, hx, ?_⟩
-  rw [← hxe]
-  split
-  · right; rfl
-  · left; rfl
+  induction l with
+  | nil => simp [setQ] at h
+  | cons y l ih =>
+    simp only [setQ] at h
+    split at h
+    · simp only [List.mem_cons] at h
+      rcases h with rfl | h
+      · exact ⟨y, List.mem_cons_self, Or.inr rfl⟩
+      · exact ⟨x', List.mem_cons_of_mem _ h, Or.inl rfl⟩
+    · simp only [List.mem_cons] at h
+      rcases h with rfl | h
+      · exact ⟨x', List.mem_cons_self, Or.inl rfl⟩
+      · obtain ⟨x, hx, hxe⟩ := ih h
+        exact ⟨x, List.mem_cons_of_mem _ hx, hxe⟩
 
 theorem allQ_setQ {P : Reasm.Q → Prop} {l : List Stream} {si : BitVec 16} {f : Reasm.Q → Reasm.Q}
     (h : ∀ x ∈ l, P x.q) (hf : ∀ q, P q → P (f q)) : ∀ x ∈ setQ l si f, P x.q := by
